@@ -455,8 +455,9 @@ func uncheckedCallers(ck *Checker, results []*funcResult) []string {
 		if fn.Pkg == nil || fn.Blocks == nil || !strings.HasPrefix(fn.Pkg.Pkg.Path(), modulePath) {
 			continue
 		}
+		underContract := false
 		if c := ck.contractOf(fn); c != nil && !c.Extern {
-			continue // call sites in functions under contract carry a requires[...] obligation
+			underContract = true // call sites in functions under contract carry a requires[...] obligation, unless the callee is standalone
 		}
 		if strings.HasSuffix(fn.Pkg.Pkg.Path(), "_test") || strings.HasSuffix(ck.fset.Position(fn.Pos()).Filename, "_test.go") {
 			continue
@@ -475,7 +476,7 @@ func uncheckedCallers(ck *Checker, results []*funcResult) []string {
 				if o := callee.Origin(); o != nil {
 					name = o.String()
 				}
-				if _, ok := need[name]; !ok {
+				if nc, ok := need[name]; !ok || (underContract && !nc.Standalone) {
 					continue
 				}
 				key := name + " <- " + fn.String()
